@@ -34,6 +34,13 @@ pub struct Case {
     pub cont: Container,
     pub cmd: Cmd,
     pub rel: Rel,
+    /// the record list is written this many times (ids suffixed): outputs beyond 8 KiB / 64 KiB per worker
+    #[serde(default)]
+    pub copies: usize,
+    /// a command executed (through the executable) into both output locations before the two compared runs:
+    /// the options must mean the same on top of an earlier result
+    #[serde(default)]
+    pub prior: Option<Cmd>,
 }
 
 fn other(c: &Case) -> Cmd {
@@ -82,8 +89,21 @@ fn check_norm_relation(norm: &[Vec<f64>], counts: &[Vec<f64>]) -> Result<(), Str
     Ok(())
 }
 
-pub fn check_case(c: &Case) -> Verdict {
+pub fn check_case(c0: &Case) -> Verdict {
     let mut v = Verdict::new();
+    // replicate the records
+    let mut c = c0.clone();
+    if c0.copies > 1 {
+        let mut recs = Vec::with_capacity(c0.recs.len() * c0.copies);
+        for i in 0..c0.copies {
+            for r in &c0.recs {
+                recs.push(Rec { id: format!("{}_{}", r.id, i), desc: r.desc.clone(), seq: r.seq.clone() });
+            }
+        }
+        c.recs = recs;
+        v.class("replicated-records");
+    }
+    let c = &c;
     let a = &c.cmd;
     let b = other(c);
     v.class(format!("{:?}-{}", a.sub, match &c.rel { Rel::Library => "library", Rel::Preset(_) => "preset", Rel::Header => "header", Rel::Threads(_) => "threads", Rel::Counts => "counts", Rel::Acgt => "acgt", Rel::Stdin => "stdin", Rel::PyEntry => "py-entry" }));
@@ -102,6 +122,21 @@ pub fn check_case(c: &Case) -> Verdict {
     let stdin_data = std::fs::read(&input).unwrap();
     let out_a = dir.path().join("out_a");
     let out_b = dir.path().join("out_b");
+    if let Some(p) = &c.prior {
+        v.class("on-top-of-an-earlier-result");
+        let prior_in = io::write_input(dir.path(), "prior", &c.alt, &Container::plain_fasta());
+        for o in [&out_a, &out_b] {
+            let r = run_via_cli(p, &prior_in, Some(&altp), o, None);
+            if r.timed_out {
+                v.class("cli-timeout");
+                return v;
+            }
+            if !r.clean() {
+                v.fail("cli-failed", format!("earlier run {:?}: {}", p.args("IN", Some("ALT"), "OUT"), r.describe()));
+                return v;
+            }
+        }
+    }
     let ra = run_via_cli(a, &input, Some(&altp), &out_a, Some(&stdin_data));
     if ra.timed_out {
         v.class("cli-timeout");
@@ -224,11 +259,11 @@ pub fn cmd_strategy() -> BoxedStrategy<(Cmd, Rel)> {
             let rel = prop_oneof![3 => Just(Rel::Library), 2 => preset().prop_map(Rel::Preset), 2 => Just(Rel::Header), 2 => threads_cli().prop_map(Rel::Threads), 2 => Just(Rel::Counts), 1 => Just(Rel::Stdin), 1 => Just(Rel::PyEntry)];
             (Just(cmd), rel)
         });
-    let cgr = (prop_oneof![1 => Just(1u64), 2 => 1u64..=4096], threads_cli()).prop_flat_map(|(vs, t)| {
+    let cgr = (prop_oneof![2 => Just(1u64), 1 => Just(2u64), 4 => 1u64..=4096, 1 => Just(1u64 << 20)], threads_cli()).prop_flat_map(|(vs, t)| {
         let cmd = Cmd { vec_size: Some(vs), threads: t, ..Cmd::base(Sub::Cgr) };
         (Just(cmd), prop_oneof![4 => Just(Rel::Library), 2 => threads_cli().prop_map(Rel::Threads), 1 => Just(Rel::PyEntry)])
     });
-    let kcgr = (3u64..=6, any::<bool>(), 1u64..=4096, threads_cli()).prop_flat_map(|(k, counts, vs, t)| {
+    let kcgr = (3u64..=6, any::<bool>(), prop_oneof![2 => Just(1u64), 1 => Just(2u64), 4 => 1u64..=4096, 1 => Just(1u64 << 20)], threads_cli()).prop_flat_map(|(k, counts, vs, t)| {
         let cmd = Cmd { k, counts, vec_size: Some(vs), threads: t, ..Cmd::base(Sub::KCgr) };
         (Just(cmd), prop_oneof![4 => Just(Rel::Library), 2 => threads_cli().prop_map(Rel::Threads), 4 => Just(Rel::Counts), 1 => Just(Rel::PyEntry)])
     });
@@ -318,7 +353,17 @@ impl Leg for Relations {
                 } else {
                     Just(None).boxed()
                 };
-                (gen::records_mixed_in_container(p), gen::records(p), edge).prop_map(move |((mut recs, cont), alt, edge)| {
+                let copies = match cmd.sub {
+                    Sub::Min | Sub::Oligo | Sub::Cgr => prop_oneof![12 => Just(1usize), 1 => 40usize..=120, 1 => 200usize..=400].boxed(),
+                    _ => Just(1usize).boxed(),
+                };
+                // an earlier command with the same kind of output location (file / directory)
+                let is_dir = cmd.out_is_dir();
+                let prior = prop_oneof![
+                    3 => Just(None).boxed(),
+                    1 => cmd_strategy().prop_map(move |(p, _)| if p.out_is_dir() == is_dir && !p.stdin { Some(p) } else { None }).boxed(),
+                ];
+                (gen::records_mixed_in_container(p), gen::records(p), edge, copies, prior).prop_map(move |((mut recs, cont), alt, edge, copies, prior)| {
                     if let Some(e) = edge {
                         recs.push(Rec { id: "edge_multiplicity".into(), desc: None, seq: crate::util::Bytes(e) });
                     }
@@ -326,7 +371,12 @@ impl Leg for Relations {
                         recs.push(Rec { id: "only".into(), desc: None, seq: crate::util::Bytes(b"ACGTTGCAAGGCTTAACCGGTTACGATCGATCGGCTA".to_vec()) });
                     }
                     let cont = if recs.iter().any(|r| r.seq.0.is_empty()) && cont.is_fastq() { Container::plain_fasta() } else { cont };
-                    Case { recs, alt, cont, cmd: cmd.clone(), rel: rel.clone() }
+                    // the earlier run reads the alternative records; whole-sequence CGR needs nucleotides only
+                    let prior = match prior {
+                        Some(p) if p.sub == Sub::Cgr && alt.iter().any(|r| r.seq.0.iter().any(|&b| !crate::model::is_base(b))) => None,
+                        o => o,
+                    };
+                    Case { recs, alt, cont, cmd: cmd.clone(), rel: rel.clone(), copies, prior }
                 })
             })
             .boxed()
